@@ -683,3 +683,5 @@ def replay_altered_dump(obligation=None, model=None, meta=None):
     if p.v:
         return {'confirmed': True, 'inputs': p.v[0].get('inputs'), 'observed': 'reloaded file differs: %r' % (p.v[0].get('inputs'),), 'native_cmd': p.v[0].get('native_cmd')}
     return {'confirmed': False, 'tried': 6}
+
+replay_altered_dump.real_system = True       # drives the real program on stock inputs: a crash inside repository code is a confirmed failure
